@@ -169,7 +169,7 @@ impl<'a> Gen<'a> {
         if self.k.css_attrs {
             let r = &mut *self.r;
             if r.p(22) {
-                s.push_str(&format!(" class=\"{}\"", r.pick(&["a", "b", "a b", "c-d", "b  a"])));
+                s.push_str(&format!(" class=\"{}\"", r.pick(&["a", "b", "a b", "c-d", "b  a", "a a", "a b a", "b b", "c-d a c-d", " a\tb "])));
             }
             if !self.k.classes_only && r.p(7) {
                 s.push_str(&format!(
@@ -578,7 +578,7 @@ pub fn selector(r: &mut R) -> String {
             s.push('*');
         }
         if r.p(30) {
-            s.push_str(r.pick(&[".a", ".b", ".c-d"]));
+            s.push_str(r.pick(&[".a", ".b", ".c-d", ".a.b", ".b.a", ".a.a", ".a.b.a", ".c-d.a"]));
         }
         if r.p(15) {
             s.push_str(r.pick(&["#i1", "#i2", "#i3", "#i7"]));
@@ -605,7 +605,15 @@ pub fn decl(r: &mut R) -> String {
         7 => (r.pick(&["overflow", "overflow-y"]).to_string(), r.pick(&["hidden", "visible", "scroll", "auto", "foo hidden", "clip"]).to_string()),
         8 => ("white-space".into(), r.pick(&["pre", "pre-wrap", "normal", "nowrap"]).to_string()),
         9 => ("content".into(), r.pick(&["\"*\"", "'x' \"y\"", "\"a\\\"b\"", "none", "\"unterminated"]).to_string()),
-        _ => (r.pick(&["margin", "font-size", "-x-foo", "border"]).to_string(), r.pick(&["1px solid", "12pt", "a(b(c))", "50%", "1.5em", "+3", "-4", "10 px", "url(a)"]).to_string()),
+        _ => (
+            r.pick(&["margin", "font-size", "-x-foo", "border", "quotes", "font-family", "list-style-type"]).to_string(),
+            r.pick(&[
+                "1px solid", "12pt", "a(b(c))", "50%", "1.5em", "+3", "-4", "10 px", "url(a)",
+                // delimiters inside strings, comments and brackets of values the library ignores
+                "\"a;b\"", "'x}y'", "\"{\" \"}\"", "0 /* ; */ 1px", "a /* } */ b", "\"a\\\";b\"", "f(a;b)", "[x;y]", "'q' /*{*/ \"r;\"",
+            ])
+            .to_string(),
+        ),
     };
     let imp = if r.p(15) { r.pick(&[" !important", "!important", " ! important", "!IMPORTANT"]) } else { "" };
     format!("{}{}:{}{}{}", case(r, &p), ows(r), ows(r), v, imp)
